@@ -960,8 +960,74 @@ func (vc *FuncVC) Generate() (err error) {
 	// vacuity guard: the preconditions (and everything assumed at entry) are satisfiable
 	vc.oblige("V", "vacuity/requires-sat", TTrue, TFalse, vc.propTags("C04"), vc.fn.Pos(), "requires satisfiable").ExpectSat = true
 	rpo := vc.analyseCFG()
+	// a clause that refers to a loop the function does not have would be ignored silently: make it an error
+	nloops := len(vc.loopOrd)
+	loopKeys := map[int]bool{}
+	for k := range vc.fc.Invs {
+		loopKeys[k] = true
+	}
+	for k := range vc.fc.Decr {
+		loopKeys[k] = true
+	}
+	for k := range vc.fc.ErrExit {
+		loopKeys[k] = true
+	}
+	for k := range vc.fc.LoopHints {
+		loopKeys[k] = true
+	}
+	for k := range vc.fc.LoopLets {
+		loopKeys[k] = true
+	}
+	for k := range vc.fc.BackHints {
+		loopKeys[k] = true
+	}
+	for k := range vc.fc.BackAsserts {
+		loopKeys[k] = true
+	}
+	for k := range loopKeys {
+		if k < 1 || k > nloops {
+			return fmt.Errorf("%s: the contract has clauses for loop %d but the function has %d loop(s)", vc.name, k, nloops)
+		}
+	}
+	for k := range vc.fc.DeadRets {
+		if k < 1 || k > len(vc.retNum) {
+			return fmt.Errorf("%s: the contract declares return %d unreachable but the function has %d return(s)", vc.name, k, len(vc.retNum))
+		}
+	}
+	for _, list := range [][]string{vc.fc.Outs, keysOf(vc.fc.Nilable)} {
+		for _, n := range list {
+			if _, ok := vc.params[n]; !ok {
+				return fmt.Errorf("%s: the contract names a parameter %q the function does not have", vc.name, n)
+			}
+		}
+	}
 	vc.processBlocks(rpo, nil)
+	// ghost assertions attached to call sites that do not exist
+	for site := range vc.fc.Asserts {
+		if !vc.assertsSeen[site] {
+			return fmt.Errorf("%s: the contract has an assertion before %s but there is no such call site", vc.name, site)
+		}
+	}
+	for n := range vc.fc.LocalAssume {
+		if !vc.localDone[n] {
+			return fmt.Errorf("%s: the contract assumes something about a local %q that is never bound", vc.name, n)
+		}
+	}
+	for w := range vc.fc.Imports {
+		if vc.W.spec.Funcs[w] == nil {
+			return fmt.Errorf("%s: import of unknown wrapper %s", vc.name, w)
+		}
+	}
 	return nil
+}
+
+func keysOf(m map[string]bool) []string {
+	var out []string
+	for k := range m {
+		out = append(out, k)
+	}
+	sort.Strings(out)
+	return out
 }
 
 var freshRe = regexp.MustCompile(`!(\d+)`)
